@@ -2,7 +2,6 @@ package main
 
 import (
 	"fmt"
-	"sync"
 	"go/ast"
 	"go/token"
 	"go/types"
@@ -10,6 +9,7 @@ import (
 	"path/filepath"
 	"sort"
 	"strings"
+	"sync"
 
 	"golang.org/x/tools/go/packages"
 	"golang.org/x/tools/go/ssa"
@@ -20,30 +20,30 @@ const lalPrefix = "github.com/q191201771/lal/"
 const nazaPrefix = "github.com/q191201771/naza/"
 
 type Prog struct {
-	prog         *ssa.Program
-	pkgs         []*packages.Package
-	fset         *token.FileSet
-	funcs        map[string]*ssa.Function // key: pkgpath.RelName
-	keyOf        map[*ssa.Function]string
-	specs        *Specs
-	dirty        map[string]bool // "typeShort.field" whose address escapes
-	mods         map[*ssa.Function]map[string]bool
-	typeID       map[string]int
-	typeBy       map[int]types.Type
-	files        map[string]*ast.File // filename -> syntax
-	src          map[string][]byte
-	byPos        map[token.Pos]ast.Node // Lbrack / Lparen / etc. -> node
-	inScope      []*ssa.Function
-	addrTaken    map[string][]*ssa.Function // signature string -> functions used as values
-	implCache    map[string][]*ssa.Function
-	pkgByPath    map[string]*ssa.Package
-	namedTypes   []*types.Named
-	repo         string
-	sweepInlined []*ssa.Function
-	reachCache   map[[2]*ssa.Function]bool
-	reachMu      sync.Mutex
-	genMu        sync.Mutex
-	nonNilGlobals map[*ssa.Global]bool // write-once package variables initialised with a non-nil value
+	prog          *ssa.Program
+	pkgs          []*packages.Package
+	fset          *token.FileSet
+	funcs         map[string]*ssa.Function // key: pkgpath.RelName
+	keyOf         map[*ssa.Function]string
+	specs         *Specs
+	dirty         map[string]bool // "typeShort.field" whose address escapes
+	mods          map[*ssa.Function]map[string]bool
+	typeID        map[string]int
+	typeBy        map[int]types.Type
+	files         map[string]*ast.File // filename -> syntax
+	src           map[string][]byte
+	byPos         map[token.Pos]ast.Node // Lbrack / Lparen / etc. -> node
+	inScope       []*ssa.Function
+	addrTaken     map[string][]*ssa.Function // signature string -> functions used as values
+	implCache     map[string][]*ssa.Function
+	pkgByPath     map[string]*ssa.Package
+	namedTypes    []*types.Named
+	repo          string
+	sweepInlined  []*ssa.Function
+	reachCache    map[[2]*ssa.Function]bool
+	reachMu       sync.Mutex
+	genMu         sync.Mutex
+	nonNilGlobals map[*ssa.Global]bool       // write-once package variables initialised with a non-nil value
 	constGlobals  map[*ssa.Global]*ssa.Const // write-once package variables initialised with a constant
 }
 
